@@ -103,6 +103,11 @@ func (u *Unit) verify() (err error) {
 		u.s.assume(u.ty.rangeFact(c, p.Type(), alloc0))
 	}
 	u.entry = st.clone()
+	for _, l := range con.Uses {
+		if l == "ixshift" {
+			u.s.assumeGlobal(ixShiftFact)
+		}
+	}
 	pkg := u.eng.contractPkg(con)
 	// axioms
 	u.assumeAxioms(st)
@@ -205,6 +210,10 @@ func (u *Unit) evalSpecBool(expr string, st *State, fn *ssa.Function, l *loopInf
 	pkg := fnPkg(fn)
 	env := u.newEnv(st, u.entry, fn, pkg)
 	env.loop = l
+	env.hdr = l.headerState
+	if env.hdr == nil {
+		env.hdr = st
+	}
 	return env.evalBool(expr)
 }
 
